@@ -19,6 +19,9 @@ NEON, simd128) and of the private short-haystack fallback `Prefilter::find_simpl
                          the vector code used first_offset on a mask of the chunk at c's base
   POST-MATCH  Some(c) => both pair bytes really are at c+index1, c+index2 (a set lane of the pair
                          mask, or two assumed byte equalities)      [not for find_simple: it clamps]
+and of the private dispatch targets prefilter_kind_* (under the Prefilter invariants I-PRE and rarest = first pair
+byte, both established by the constructors below; the vector prefilter they call is summarised by what its own
+root proves), so that the short-haystack switch to find_simple is covered as it is actually wired;
 and at the constructors (public with_pair of every backend; the private Prefilter::{sse2,avx2,
 neon,simd128,fallback} analysed as extra roots under the relation their only caller establishes):
   SPEC-POST   the stored comparison bytes are needle[index1], needle[index2]; rarest_byte is
@@ -32,7 +35,8 @@ from . import e2common
 PID = 'C11'
 _ARCH = r'(all|x86_64::sse2|x86_64::avx2|aarch64::neon|wasm32::simd128)'
 ROOTS = (r'^arch::' + _ARCH + r'::packedpair::Finder::(find_prefilter|with_pair)$'
-         r'|^memmem::searcher::Prefilter::(find_simple|sse2|avx2|neon|simd128|fallback(::<.*>)?)$')
+         r'|^memmem::searcher::Prefilter::(find_simple|sse2|avx2|neon|simd128|fallback(::<.*>)?)$'
+         r'|^memmem::searcher::prefilter_kind_(sse2|avx2|neon|simd128|fallback)$')
 KINDS = ('POST', 'POST-NONE', 'POST-FIRST', 'POST-MATCH', 'SPEC-POST', 'AXIOM-PRE')
 
 
